@@ -647,3 +647,51 @@ M("C04", MI, """        if not self.visit(expr, *args, **kwargs):
 
         self.rec(expr.child, *args, **kwargs)
         for v in expr.values:""", "revert of fix e81255c (substitution extra args)")
+
+M("C05", MI, """        return (type(expr), expr, args, immutabledict(kwargs))""",
+  """        return (expr, args, immutabledict(kwargs))""", "type(expr) removed from the cache key")
+M("C05", MI, """        return (type(expr), expr, args, immutabledict(kwargs))""",
+  """        return (type(expr), expr, immutabledict(kwargs))""", "args removed from the cache key")
+M("C05", MI, """        return (type(expr), expr, args, immutabledict(kwargs))""",
+  """        return (type(expr), expr, args)""", "kwargs removed from the cache key")
+M("C05", MI, """    def __init__(self):
+        self._cache: dict[Any, Any] = {}
+        Mapper.__init__(self)""", """    _cache: dict[Any, Any] = {}
+
+    def __init__(self):
+        Mapper.__init__(self)""", "cache shared at class level")
+M("C05", MI, """        result = self.rec_fallback(expr, *args, **kwargs)
+        self._cache[cache_key] = result
+        return result
+
+    rec = __call__""", """        result = self.rec_fallback(expr, *args, **kwargs)
+        return result
+
+    rec = __call__""", "fallback results not stored (recomputed)")
+M("C05", MI, """                result = method(expr, *args, **kwargs)
+                self._cache[cache_key] = result
+                return result""", """                result = method(expr, *args, **kwargs)
+                if args:
+                    return result
+                self._cache[cache_key] = result
+                return result""", "results with extra args not memoized")
+M("C05", MI, """        key = (expr, *args)
+        try:
+            return ccd[key]""", """        key = expr.child
+        try:
+            return ccd[key]""", "CSE cache keyed by the child only (prefix/scope/args ignored)")
+OP = "pymbolic/mapper/optimize.py"
+M("C05", OP, """                       args=[arg for arg in node.args
+                          if not self.drop_args or not isinstance(arg, ast.Starred)],""",
+  """                       args=[arg for arg in node.args[:1]
+                          if not self.drop_args or not isinstance(arg, ast.Starred)],""",
+  "_VarArgsRemover drops real positional arguments")
+M("C05", OP, """                cache_key_expr = ast.Tuple([expr_type, expr], ctx=Load())""",
+  """                cache_key_expr = ast.Tuple([expr], ctx=Load())""", "inlined cache key without type(expr)")
+M("C05", OP, """            mdef = deepcopy(method_defs[mname])""", """            mdef = method_defs[mname]""",
+  "revert of fix 1b52e0e (module AST mutated in place)")
+M("C05", OP, """                        body=_replace(node, func=Name(id="method", ctx=Load())),
+                        orelse=fallback_call),
+                    orelse=fallback_call)""", """                        body=fallback_call,
+                        orelse=fallback_call),
+                    orelse=fallback_call)""", "_RecInliner always calls the fallback")
